@@ -4,7 +4,7 @@
 set -u
 P=$1; K=$2; SLUG=$3; NEEDS=$4; shift 4; FEAT="$*"
 ID=$P-$SLUG
-SRC=/tmp/w6_$P/out/$K
+SRC=/tmp/${WAVE:-w6}_$P/out/$K
 mkdir -p /verif/seeded/$ID
 cp $SRC/patch.diff $SRC/demo_test.rs $SRC/notes.md /verif/seeded/$ID/
 OUT=$(/verif/selftest/confirm_seeded.sh $ID $FEAT 2>&1)
@@ -15,6 +15,6 @@ id_,p,needs,feat,out=sys.argv[1:6]
 json.dump({"property":p,"needs_to_manifest":needs,
  "demo":"copy demo_test.rs into the crate's tests/ directory; cargo test --offline %s --test demo_test fails with patch.diff applied and passes without"%feat,
  "confirmed":"selftest/confirm_seeded.sh %s %s : %s"%(id_,feat," | ".join(l.strip() for l in out.splitlines() if l.strip())),
- "source":"independent sub-agent (wave 6) given only the property text and a scratch worktree"},
+ "source":"independent sub-agent (wave 6/7) given only the property text and a scratch worktree"},
  open("/verif/seeded/%s/meta.json"%id_,"w"),indent=1)
 PY
